@@ -1,5 +1,5 @@
 """C13 The stream-to-socket bridge: readiness / error discipline, half-close."""
-from an import (Tracer, Explorer, guard_at, strip, walk, fmt, callee, STOP)
+from an import (Tracer, Explorer, guard_at, strip, walk, fmt, callee, STOP, const_eval)
 from mir import loc_str
 from shared import s2_unjustified_pending, is_poll_body, POLL_ADT
 from muxcommon import *
@@ -58,6 +58,7 @@ def check(facts, rep, tier, cfg):
     check_r4(facts, rep, crate, bodies)
     check_r5_counters(facts, rep, bodies)
     check_r6_joint(facts, rep, crate, bodies)
+    check_r7_initial_state(facts, rep, crate)
 
 
 def check_r2(facts, rep, bodies):
@@ -225,6 +226,30 @@ def check_r6_joint(facts, rep, crate, bodies):
         else:
             rep.ok(rid, "%s/errors-before-pending" % b.path, where, "both `?` dominate the %d Pending exits" % len(pend))
     rep.floor(rid, "joint poll bodies", n, 1)
+
+
+def check_r7_initial_state(facts, rep, crate):
+    rid = "C13.R7"
+    rep.rule(rid, "the bridge always starts with both directions in Transferring(0): what the peer queued before the bridge was built is "
+                  "still relayed (no construction-time shortcut derived from the stream's momentary state)")
+    n = 0
+    for b, bi, st, fields in struct_inits(facts, crate, BRIDGE_ADT):
+        tr = Tracer(facts, b)
+        for f in ("read_state", "write_state"):
+            if f not in fields:
+                continue
+            n += 1
+            rep.analysed(b)
+            where = "%s (%s)" % (loc_str(st["loc"]), b.path)
+            v = strip(tr.operand(fields[f]))
+            ok = v.kind == "agg" and v[2].endswith("State::Transferring") and v[3] and const_eval(v[3][0][1]) == 0
+            if ok:
+                rep.ok(rid, "initial/%s" % f, where, "Transferring(0)")
+            else:
+                rep.bad(rid, "initial/%s" % f, where,
+                        "the bridge's %s is initialised with `%s` instead of the constant Transferring(0): depending on the stream's state at "
+                        "construction a direction starts past the transfer phase and queued data is never relayed" % (f, fmt(v)[:70]))
+    rep.floor(rid, "initial direction states", n, 2)
 
 
 def check_r4_written_amount(facts, rep, bodies, rid="C13.R4"):
